@@ -247,13 +247,22 @@ Proof.
   exact Hv.
 Qed.
 
+Lemma dw_inner_panic ds x : defs_within ds x -> defs_within ds (inner_panic x).
+Proof.
+  intros H. destruct x as [a d m [c|] j stk| | | | | | | | |]; try exact H.
+  destruct c; try exact H. cbn [inner_panic].
+  intros n dd Hn Hd. apply (H n dd); [|exact Hd].
+  cbn [reach]. right. cbn [is_multi]. rewrite Bool.andb_false_r. exact Hn.
+Qed.
+
 Lemma eval_cb_dw s : Inv s -> forall c next,
   cb_ok (List.length (s_defs s)) (List.length (s_errs s)) c = true ->
   res_dw (s_defs s) (fst (eval_cb s c next)).
 Proof.
-  intros HI. induction c as [e|e|id f|m t|c IH|f c IH stk|f c1 IH1 stk c2 IH2]; intros next Hok; cbn [eval_cb cb_ok] in *.
+  intros HI. induction c as [e|e|e|id f|m t|c IH|f c IH stk|f c1 IH1 stk c2 IH2]; intros next Hok; cbn [eval_cb cb_ok] in *.
   - cbn. destruct (get_err s e) as [x|] eqn:G; [|exact I]. eapply get_err_dw; eauto.
   - destruct (get_err s (Some e)) as [x|] eqn:G; cbn; [eapply get_err_dw; eauto|apply dw_leaf].
+  - destruct (get_err s (Some e)) as [x|] eqn:G; cbn; [apply dw_inner_panic; eapply get_err_dw; eauto|apply dw_leaf].
   - exact I.
   - cbn. apply dw_leaf.
   - now apply IH.
